@@ -369,6 +369,7 @@ impl State {
         let heap_len = self.heap.len();
         let data_len = self.data_stack.len();
         let rlog_len = self.reverse_log.as_ref().map(|log| log.len());
+        let sources_len = self.sources.len();
         self.context_open(mode)?;
         let own = self.ctx.clone();
         self.intern_source(s, path)?;
@@ -389,6 +390,9 @@ impl State {
             self.dict.truncate(own.di_len);
             self.heap.truncate(heap_len);
             self.data_stack.truncate(data_len);
+            // nor do the files it pulled in count as loaded (their definitions are gone):
+            // a later `require` has to load them again
+            self.sources.truncate(sources_len);
             if let (Some(log), Some(len)) = (self.reverse_log.as_mut(), rlog_len) {
                 // what its meta blocks recorded refers to state that is gone
                 log.truncate(len);
